@@ -152,18 +152,34 @@ func (m *nsModel) rename(from, to string) (string, func()) {
 		return "NO", nil
 	}
 
-	// names stay unique: an inferior that would land on an existing name blocks the rename
+	// names stay unique: an inferior that would land on an existing name blocks the rename - unless that name is
+	// itself being moved away (RENAME a.b a with an inferior a.b.c -> a.b): then the outcome depends on the order
+	// in which the server renames the inferiors, and either answer is accepted
+	chain := false
+
 	if from != "INBOX" {
 		for n := range m.boxes {
 			if strings.HasPrefix(n, from+m.delim) {
-				if _, taken := m.boxes[to+n[len(from):]]; taken {
+				target := to + n[len(from):]
+
+				if _, taken := m.boxes[target]; taken {
+					if target == from || strings.HasPrefix(target, from+m.delim) {
+						chain = true
+						continue
+					}
+
 					return "NO", nil
 				}
 			}
 		}
 	}
 
-	return "OK", func() {
+	verdict := "OK"
+	if chain {
+		verdict = "NO-OR-OK"
+	}
+
+	return verdict, func() {
 		for _, s := range m.superiors(to) {
 			if _, ok := m.boxes[s]; !ok {
 				m.boxes[s] = true
